@@ -64,27 +64,9 @@ def run(ctx, res):
 
     # ---- R3 -------------------------------------------------------------------------
     res.floor("C01.R3", 3)
-    for g in prog.unit_funcs(W):
-        fins = g.calls("block_builder_finish")
-        if not fins:
-            continue
-        res.saw(g)
-        evp = APE.run(prog, cg, g, bound=APE.BOUND)
-        for p in evp.paths:
-            if p.end != "exit":
-                continue
-            evs = [e for e in p.events if e.kind == "call"]
-            for i, e in enumerate(evs):
-                if e.a != "block_builder_finish":
-                    continue
-                who = canon(call_args(e.node)[0])
-                rest = evs[i + 1:]
-                reset = [j for j, x in enumerate(rest) if x.a == "block_builder_reset" and canon(call_args(x.node)[0]) == who]
-                reuse = [j for j, x in enumerate(rest) if x.a in ("block_builder_add", "block_builder_finish") and canon(call_args(x.node)[0]) == who]
-                good = bool(reset) and (not reuse or reset[0] < reuse[0])
-                res.check(good, "C01.R3", site(g, "finish->reset:%s" % who), "a finished builder is reset before it is used again or the function returns",
-                          "builder %s is finished and then %s" % (who, "reused without a reset" if reuse else "left finished (the next add aborts)"),
-                          g.loc(e.node), p.describe(g))
+    # a finished builder is fit for the next block: decided by interpretation (rules/bbrule.py: reuse)
+    from . import bbrule as _bbr
+    _bbr.reuse(ctx, res, "C01.R3")
     fin = prog.need("_mtbl_writer_finish", W)
     evp = APE.run(prog, cg, fin, bound=APE.BOUND)
     for p in evp.paths:
